@@ -347,8 +347,8 @@ func genMalformed(r *vf.Rng) Input {
 		code = append(code, pushOf(r, offs[r.Intn(len(offs))])...)
 		code = append(code, []byte{0x51, 0x52, 0x53}[r.Intn(3)])
 		class = "huge_offset"
-	case 5: // stack limit
-		if r.Chance(25) {
+	case 5: // stack limit (long: 1023 pushes, kept rare)
+		if r.Chance(8) {
 			for i := 0; i < 1023; i++ {
 				code = append(code, 0x60, byte(i))
 			}
@@ -481,12 +481,27 @@ var dMask = new(big.Int).Sub(pow2(124), big.NewInt(1))
 
 func dmix(acc, v *big.Int) *big.Int {
 	a := new(big.Int).Mul(acc, big.NewInt(33))
-	a.Add(a, new(big.Int).And(v, dMask)) // two's complement semantics, as Z.land
-	hi := new(big.Int).Rsh(v, 124)       // floor, as Z.shiftr
-	hi.And(hi, dMask)
-	a.Add(a, hi.Mul(hi, big.NewInt(7)))
+	if v.Sign() >= 0 && v.Cmp(dMask) <= 0 {
+		a.Add(a, v)
+	} else {
+		a.Add(a, new(big.Int).And(v, dMask)) // two's complement semantics, as Z.land
+		hi := new(big.Int).Rsh(v, 124)       // floor, as Z.shiftr
+		hi.And(hi, dMask)
+		a.Add(a, hi.Mul(hi, big.NewInt(7)))
+	}
 	a.Add(a, big.NewInt(1))
 	return a.And(a, dMask)
+}
+func dbytes(acc *big.Int, b []byte) *big.Int {
+	acc = dmix(acc, big.NewInt(int64(len(b))))
+	for i := 0; i < len(b); i += 15 {
+		j := i + 15
+		if j > len(b) {
+			j = len(b)
+		}
+		acc = dmix(acc, new(big.Int).SetBytes(b[i:j]))
+	}
+	return acc
 }
 func dlist(acc *big.Int, l []*big.Int) *big.Int {
 	acc = dmix(acc, big.NewInt(int64(len(l))))
@@ -506,11 +521,7 @@ func runDigest(o Obs) *big.Int {
 	d := dlist(big.NewInt(7), bigs(o.Tops))
 	if o.Status == StOK {
 		d = dlist(d, bigs(o.Stack))
-		m := make([]*big.Int, len(o.Mem))
-		for i, b := range o.Mem {
-			m[i] = big.NewInt(int64(b))
-		}
-		d = dlist(d, m)
+		d = dbytes(d, o.Mem)
 	}
 	return d
 }
